@@ -136,6 +136,8 @@ def fstring_flags(fs):
                 comp(s)
             elif isinstance(s, String) and ("{" in s or "}" in s):
                 flags.add("spec-brace")
+            elif isinstance(s, String) and "\\" in s and fs.brackets is None:
+                flags.add("spec-backslash")
     for c in fs:
         if isinstance(c, FComponent):
             comp(c)
@@ -150,14 +152,14 @@ def fstring_flags(fs):
     return flags
 
 
-FS_ORDER = ("carriage-return", "named-escape-lookalike", "leading-newline", "multi-spec", "spec-brace", "nested-spec", "spec",
+FS_ORDER = ("carriage-return", "named-escape-lookalike", "leading-newline", "spec-backslash", "multi-spec", "spec-brace", "nested-spec", "spec",
             "conversion")
 FS_LABEL = {"carriage-return": "a literal part contains a carriage return",
             "named-escape-lookalike": "a literal part contains backslash-N-brace",
             "leading-newline": "content starts with a newline", "multi-spec": "format spec of several components",
-            "spec-brace": "format spec with a literal brace", "nested-spec": "format spec that is one nested field",
+            "spec-brace": "format spec with a literal brace", "spec-backslash": "quoted literal with a backslash in a format spec", "nested-spec": "format spec that is one nested field",
             "spec": "format spec that is one literal", "conversion": "conversion only", "plain": "plain fields or none"}
-FS_ONLY = {"carriage-return": ("bracket-f",), "leading-newline": ("bracket-f",), "named-escape-lookalike": ("f", "t")}
+FS_ONLY = {"carriage-return": ("bracket-f",), "leading-newline": ("bracket-f",), "named-escape-lookalike": ("f", "t"), "spec-backslash": ("f", "t")}
 
 
 def node_class(m):
@@ -325,7 +327,7 @@ FS_VALUES = ["x", "(f x)", "\"s\"", "1", ":k", "[a b]", "f\"{y}\"", "x.y", "(. x
 FS_DEBUG = ["", " =", "=", " = ", " =  "]
 FS_CONV = ["", "!r", "!s", "!a", "!z"]
 FS_SPEC = ["", ":", ":>10", ":{w}", ":>{w}", ":{w}.{p}", ":>{w}.{p}f", ":{a}{b}", ":{{", ":x{{y", ":{w !r}", ":{w :{v}}", ": ",
-           ":{w}x", ":.{p}", ":{w :{u}{v}}", ":a b", ":é", ":{(f x)}", ":{{{w}"]
+           ":{w}x", ":.{p}", ":{w :{u}{v}}", ":a b", ":é", ":{(f x)}", ":{{{w}", ":a\\\\b"]
 WRAPPERS = ["({})", "[{}]", "{{{}}}", "#{{{}}}", "#({})", "'{}", "`{}", "~{}", "~@{}", "#* {}", "#** {}"]
 SEQ_WRAPPERS = WRAPPERS[:5]
 EXPLICIT = ["()", "[]", "{}", "#{}", "#()", "(quote)", "(quote a b)", "(quasiquote)", "(unquote a b)", "(unquote-splice)",
@@ -357,7 +359,8 @@ def fstring_text(prefix, before, value, debug, conv, spec, after):
         d = prefix[2:].split("[")[0]
         close = f"]{d}]"
     sp = (" " if (debug or conv or spec) else "")
-    field = "{" + value + sp + debug + conv + ((" " + spec) if spec else "") + "}"
+    # (a value that starts with a brace needs a blank after the field's opening brace: "{{" is an escaped brace)
+    field = "{" + (" " if value.startswith("{") else "") + value + sp + debug + conv + ((" " + spec) if spec else "") + "}"
     return prefix + before + field + after + close
 
 
